@@ -5,7 +5,7 @@
   Reading guide (model: Tranp/Model/Runner.lean). `headerSlice` is the `find`/`rfind` slicing of `MetaHeader.try_from_content`,
   `tryFromContent loads av` the whole classmethod over an abstract `json.loads`, `Header.toJson` / `toHeaderStr` the real
   `json.dumps(..., separators=(',', ':'))` printer. `runStep E w argForce` is `Runner._run_impl` (targets selected up front,
-  `effForce` = `config.get('force', args.force)`), `forcedRun` writes every module, `exec` runs a history of
+  `effForce` = `args.force or config.get('force', False)`), `forcedRun` writes every module, `exec` runs a history of
   edit / run / run -f / rm-output / set-dirs / set-force operations. `E.out` is the transpiler body (may read every source),
   `E.hash` / `E.md5` are md5 on sources / header texts, `σ` is the type of source texts.
   `NoEarly Tag pre`: the tag does not occur starting inside `pre`. `Header.Normal av h`: `h.version` is truthy or is the
@@ -103,21 +103,24 @@ example : (runStep (wEnv outDep) (exec (wEnv outDep) wWorld wOps) false).written
 
 /-! ## `-f` -/
 
-/-- full statement: the command-line flag forces regeneration -/
-def force_flag_statement : Prop := ∀ cfg : Cfg, effForce cfg true = true
+/-- The command-line flag forces regeneration whatever the config file says (`args.force or config.get('force', False)`):
+    `run -f` is the forced run — every module is transpiled and written. -/
+theorem force_flag {σ : Type} (E : Env σ) (w : World σ) :
+    effForce w.cfg true = true ∧ runStep E w true = forcedRun E w := by
+  refine ⟨by simp [effForce], ?_⟩
+  simp [runStep, targets, effForce, forcedRun]
 
-/-- … is false: `config.get('force', args.force)` lets a `force: false` line of the config file override `-f`. -/
-theorem force_flag_counterexample : ¬ force_flag_statement := fun h => absurd (h ⟨[], [], some false, []⟩) (by decide)
+example : effForce ⟨[], [], some false, []⟩ true = true ∧ effForce ⟨[], [], none, []⟩ true = true := ⟨rfl, rfl⟩
 
-example : effForce ⟨[], [], some false, []⟩ true = false ∧ effForce ⟨[], [], some true, []⟩ false = true := ⟨rfl, rfl⟩
+/-- Without the flag the config file decides: a plain run is forced exactly when the file says `force: true`. -/
+theorem force_config (cfg : Cfg) : effForce cfg false = true ↔ cfg.forceCfg = some true := by
+  unfold effForce
+  cases h : cfg.forceCfg with
+  | none => simp
+  | some b => cases b <;> simp
 
-/-- The flag decides exactly when the config file has no `force` key; then `run -f` writes every module. -/
-theorem force_flag_partial {σ : Type} (E : Env σ) (w : World σ) (h : w.cfg.forceCfg = none) (argForce : Bool) :
-    effForce w.cfg argForce = argForce ∧ runStep E w true = forcedRun E w := by
-  refine ⟨by simp [effForce, h], ?_⟩
-  simp [runStep, targets, effForce, h, forcedRun]
-
-example : wWorld.cfg.forceCfg = none := rfl
+example : effForce ⟨[], [], some true, []⟩ false = true ∧ effForce ⟨[], [], some false, []⟩ false = false ∧
+    effForce ⟨[], [], none, []⟩ false = false := ⟨rfl, rfl, rfl⟩
 
 /-! ## the fix-point law -/
 
